@@ -20,13 +20,30 @@ ASSUMPTIONS = ["the expected table: source bound + 1 per dimension, 11 per used 
                "per-name size if DIMensioned in the source and configured, else the requested default"]
 REQUIRED_COUNTERS = ["tables_checked"]
 
-POSITIONS = ["target", "expr", "fnarg", "read", "input", "subscript", "print", "varptr", "fnarg_conv"]
+POSITIONS = ["target", "expr", "fnarg", "read", "input", "subscript", "print", "varptr", "fnarg_conv",
+             "in_then", "in_else", "in_elif_noelse", "in_elif_else", "in_then_nested"]
 
 
 def use_stmt(rng, v, pos, nd):
     """One statement using variable v (a ('var',..) or ('arr',..) node factory) in position pos."""
     is_s = v[1].endswith("$")
     lit = ("str", "X") if is_s else X.num(rng.randint(0, 3))
+    if pos.startswith("in_"):
+        # the only occurrence sits in one arm of an IF: every pass has to look into every arm
+        use = ("let", v, lit, False) if rng.random() < 0.6 else ("let", ("var", "R"), ("fn", "LEN", [v]) if is_s else ("fn", "ABS", [v]), False)
+        other = ("stmts", [("let", ("var", "R"), X.num(1), False)])
+        c1 = ("bin", "=", ("var", "R"), X.num(1))
+        c2 = ("bin", "=", ("var", "R"), X.num(2))
+        arm = ("stmts", [use])
+        if pos == "in_then":
+            return ("if", c1, arm, [], None if rng.random() < 0.5 else other)
+        if pos == "in_else":
+            return ("if", c1, other, [], arm)
+        if pos == "in_elif_noelse":
+            return ("if", c1, other, [(c2, arm)], None)
+        if pos == "in_elif_else":
+            return ("if", c1, other, [(c2, arm)], other)
+        return ("if", c1, ("stmts", [("if", c2, arm, [], None)]), [], None)
     if pos == "target":
         return ("let", v, lit, False)
     if pos == "expr":
